@@ -4,6 +4,7 @@ from props import _generic as g
 
 def run(ctx):
     fns = g.run_pyvc(ctx, "C03")
+    ctx.cvc(["II", "OO"] if ctx.tier == "quick" else ["II", "OO", "LF", "QQ", "fs"], ["F-SPLIT"], functions=["bucket_split"])
     ctx.standin("hist_rt", families=("OO", "II") if ctx.tier == "quick" else ("OO", "II", "LF", "QQ", "fs", "IO", "UU", "LL"),
                 args=["--mode", "wf"])
     return "proof", (
@@ -14,6 +15,9 @@ def run(ctx):
         "exactly the clauses _check() tests - children of one kind, non-empty, distinct, owning their lists; "
         "_firstbucket is the first leaf; succ(child i) is fst(child i+1); subtrees well formed - with the first-leaf hand-off "
         "of deletions, the linking of split halves and the root split; (3) _Tree._check itself (returns normally iff those "
-        "clauses hold). %d targets, every obligation discharged by z3. Key containment within separator ranges, node-size "
-        "limits, and the C implementation are checked after every call of bounded histories by the stand-in hist_rt (wf mode: "
+        "clauses hold). %d targets, every obligation discharged by z3. Engine C, F-SPLIT: bucket_split from its real loop-free "
+        "body, for every length and content: neither half is empty, the new sibling holds exactly the upper half (keys and values), "
+        "the left half is untouched, next->next == old self->next and self->next == next, the change is registered; its one "
+        "caller passes the index the contract requires. Key containment within separator ranges, node-size "
+        "limits, and the rest of the C implementation are checked after every call of bounded histories by the stand-in hist_rt (wf mode: "
         "independent walker + _check() + BTrees.check.check())." % len(fns))
